@@ -40,6 +40,23 @@ FarOutRejected == cf.bnd = "error" =>
   {ob \in AllObs : AllowedObs(cf, MaxOf(cf.e) + 40, ob, FALSE)} = {Raised}
 Cells_Tile == \A v \in Probes(cf) : InEdges(cf, v) => Cells(cf, v) # {}
 
+\* ---- datetime front-end time2t: satisfiable, sharp at the centres, never an
+\* index outside 0..n-1 (the upper outer edge belongs to the last cell)
+TTypes == {"nearest", "bounds", "bounds_close"}
+T2tSatisfiable == \A tt \in TTypes : \A v \in Probes(cf) : \E ob \in AllObs : AllowedT2t(cf, tt, v, ob)
+T2tSharpInside == \A tt \in TTypes : \A i \in 1..N(cf) :
+  {ob \in AllObs : AllowedT2t(cf, tt, cf.c[i], ob)} = {Idx(i - 1)}
+T2tOuterEdges == \A v \in {MinOf(cf.e), MaxOf(cf.e)} :
+  {ob \in AllObs : AllowedT2t(cf, "bounds", v, ob)} = {Idx(EndIdx(cf, v))}
+\* the datetime -> value conversion inverts "reference + value units" for a
+\* day-number function that is a bijection (here: days as integers)
+TimeValInverts == \A u \in {"days", "hours", "minutes", "seconds"} : \A v \in Probes(cf) :
+  LET dn(y, m, d) == d
+      secs == v * UnitSecL(u)
+      civ == <<0, 0, 10 + (secs \div 86400), (secs % 86400) \div 3600, (secs % 3600) \div 60, secs % 60, 0>>
+      ref == <<0, 0, 10, 0, 0, 0, 0>>
+  IN TimeExact(dn, u, ref, civ) /\ TimeVal(dn, u, ref, civ) = v
+
 Emit == PrintT(ToJson([c |-> cf.c, rep |-> cf.rep, e |-> cf.e, method |-> cf.method, clean |-> cf.clean,
                        bnd |-> cf.bnd, nan |-> cf.nan, probes |-> SetToSeq(Probes(cf))]))
 EmitConstraint == IF IOEnv.PNC_EMIT = "1" THEN Emit ELSE TRUE
